@@ -48,6 +48,15 @@ def check(ctx):
     ctx.floor("delegation", "default methods of DbXxx", len(methods), 14)
     extra = sorted(set(methods) - set(TABLE))
     ctx.check(not extra, "delegation", "table-complete", "DbXxx has default methods not in the delegation table: %s" % extra)
+    # the default bodies analysed here are the ones that run: no impl of the trait in the lib overrides one of them
+    n_impl = 0
+    for i in prog.impls:
+        if i.get("crate") == "abyssiniandb" and i.get("trait") == DBXXX:
+            n_impl += 1
+            over = sorted(it["name"] for it in i.get("items", []) if it["name"] in methods)
+            ctx.check(not over, "delegation", "no-override:" + short(i.get("self") or "?"),
+                      "%s overrides the provided method(s) %s of DbXxx with its own body: the element-wise default is not what runs for this type" % (short(i.get("self") or "?"), over))
+    ctx.floor("delegation", "impls of DbXxx in the lib", n_impl, 1)
     for name, allowed in TABLE.items():
         fn = methods.get(name)
         if not ctx.check(fn is not None, "delegation", name + ":anchor", "DbXxx::%s default method not found" % name):
@@ -305,6 +314,23 @@ def check_bulk_indexed(ctx, prog, fn, name, sites):
                         a = origins(prog, c, x.data["ops"][0], at=x.block)
                         ok = ok and bool(a) and all(y.kind == "param" and y.proj == ("f:0",) for y in a)
     ctx.check(ok, "bulk-by-index", name + ":indices-from-enumerate", "%s does not number the input elements with enumerate()" % name, where=where(fn))
+    # the position is carried as the usize enumerate() produced: a narrowing integer cast anywhere in the method (or its
+    # closures) makes positions of a long batch collide (`i as u16`)
+    NARROW = ("u8", "u16", "u32", "i8", "i16", "i32")
+    casts = []
+    for c in [fn] + _all_closures(prog, fn):
+        for bb, blk in enumerate(c.blocks):
+            if blk["cleanup"]:
+                continue
+            for st in blk["stmts"]:
+                if st["s"] == "assign" and st["rhs"]["rv"] == "cast" and "IntToInt" in str(st["rhs"].get("kind")) and st["rhs"].get("ty") in NARROW:
+                    src = origins(prog, c, st["rhs"]["a"], at=bb)
+                    # ... of a value that is the position component of an enumerate() item / work-list element
+                    if src and any(o.proj and o.proj[-1] == "f:0" and o.kind in ("param", "call") for o in src):
+                        casts.append((c, bb))
+    ctx.check(not casts, "bulk-by-index", name + ":index-not-narrowed",
+              "%s narrows an integer with `as`: batch positions beyond the narrower type's range wrap around and results land at the wrong index" % name,
+              where=where(casts[0][0], casts[0][1]) if casts else where(fn))
     # the result list is sorted by index, after the loop, before projection
     res_sorts = []
     for sb, st in sorts:
